@@ -325,6 +325,10 @@ def gen_cases(rng, count: int, n_cli: int) -> list:
         if rng.random() < 0.09:     # stems that are not plain file names (trigger of F-NS-STEM-PATH) and a dotted plain one
             c['stem'] = rng.choice(['sub/x', '../esc', '../../../esc', '@ABS@/x', '@ABS@/deep/y', '.', '..', 'x/', 'a.b', 'v1.2.x']
                                    + ([''] if gen in ('api', 'no') else []))
+        if gen == 'cli-support' and rng.random() < 0.7:
+            # support_namespace overrides: identifiers, the empty one, and values that are not identifiers (trigger of F-SUPPORT-NS-PATH;
+            # absolute ones live under the case directory; NO '..': the value is split at '.', relative escapes degenerate into '/')
+            c['sn'] = rng.choice(['my.support', 'a_b', '', 'x1.y2.z3', 'sub/x', '@ABS@/s', '@ABS@/deep/t', 'a-b', '9x', 'dir/'])
         if mock:     # duck-typed types straight into build_namespace_tree (no templates can be rendered for them)
             c.update(mock=True, generate='no', user=None)
             gen = 'no'
@@ -341,6 +345,11 @@ def with_suffix(name: str, ext: str) -> str:
     """PurePath(name).with_suffix(ext) for a plain file name (a last dotted suffix of the name is replaced)"""
     import pathlib
     return pathlib.PurePosixPath(name).with_suffix(ext).name
+
+
+def sn_valid(sn: str) -> bool:
+    """support_namespace: "" or dot separated identifiers (what design_notes/C11_support_namespace_fix.patch accepts)"""
+    return sn == '' or all(re.fullmatch(r'[A-Za-z_][A-Za-z0-9_]*', c) for c in sn.split('.'))
 
 
 def stem_valid(stem: str) -> bool:
@@ -497,6 +506,15 @@ def oracle_diff(r: dict, file_fold: bool) -> typing.List[str]:
             out.append('files created outside the output directory: %r' % outside)
         if r.get('cli_rc', 0) != 0:
             out.append('nnvg failed: rc=%r %s' % (r.get('cli_rc'), r.get('cli_out', '')[-300:]))
+        if r.get('with_support') and not sn_valid(r.get('sn', '')):
+            sup = sorted(f for f in got - exp_files)
+            out.append(SN_MSG + ' %r was not rejected; support files: %r' % (r['sn'], sup[:4]))
+        elif r.get('with_support'):
+            # where the property wants the support files: out/<component>/.../<component>/
+            want = '/'.join(['out'] + [c for c in r.get('sn', '').split('.') if c]) + '/'
+            stray = sorted(f for f in got - exp_files if not (f.startswith(want) and '/' not in f[len(want):]))
+            if stray:
+                out.append('support files outside %r: %r' % (want, stray[:6]))
         if r.get('with_support'):
             # the complete expected set: type/namespace files + the files of a support-only run with the same options
             if r.get('support_rc', 1) != 0:
@@ -572,6 +590,8 @@ def model_input(r: dict, mode, prefix_quirk: bool = False) -> str:
             lines.append('S %s %s' % (enc(a), enc(b)))
     for t in r['order']:
         lines.append('T ' + enc_ty(t))
+    if r.get('with_support') and r.get('sn_overridden'):
+        lines.append('SN ' + enc(r['sn']))
     for n in r['nodes']:     # namespaces reachable from the root of the implementation's tree: linked before their folded twins
         lines.append('P ' + enc_key(n['key']))
     lines.append('GO')
@@ -580,11 +600,13 @@ def model_input(r: dict, mode, prefix_quirk: bool = False) -> str:
 
 def parse_model(block: typing.List[str]) -> dict:
     res = {'root': None, 'nodes': {}, 'all': collections.Counter(), 'datatypes': collections.Counter(), 'namespaces': collections.Counter(),
-           'find': {}, 'make_path': {}, 'rel': {}, 'err': None, 'all_seq': [], 'dt_seq': [], 'ns_seq': [], 'kids': {}, 'fold': None, 'raised': False}
+           'find': {}, 'make_path': {}, 'rel': {}, 'err': None, 'all_seq': [], 'dt_seq': [], 'ns_seq': [], 'kids': {}, 'fold': None, 'raised': False, 'sup': None}
     for l in block:
         t = l.split(' ')
         if t[0] == 'RAISE':
             res['raised'] = True
+        elif t[0] == 'SUP':
+            res['sup'] = dec_key(t[1])
         elif t[0] == 'ROOT':
             res['root'] = dec_key(t[1])
         elif t[0] == 'FOLD':
@@ -727,6 +749,9 @@ def run_impl(cases: typing.List[dict], workers: int = 0) -> typing.List[dict]:
 STEM_MSG = 'namespace file and type file are one path'
 STEMPATH_MSG = 'namespace-file stem that is not a plain file name'
 STEMPATH_ID = 'F-NS-STEM-PATH'
+SN_MSG = 'support_namespace that is not a list of identifiers'
+SN_ID = 'F-SUPPORT-NS-PATH'
+KF_SN_LIVE = False      # set by main() after probing the witness
 KF_PATH_LIVE = False    # set by main() after probing the witness
 STEM_ID = 'F-NS-STEM-COLLIDE'
 KF_STEM_LIVE = False     # set by main() after probing the witness
@@ -749,11 +774,11 @@ def judge(case: dict, r: dict, kf_live: bool, models: typing.Optional[typing.Lis
     if r.get('raised') is not None:
         # build_namespace_tree refused the configuration (stem check).  Right iff a namespace file really is a type file, and
         # nothing was written; the model (instantiated with the regenerated pin_c11tree_stem_check) must refuse it too.
-        if stem_valid(r['stem']):
+        if stem_valid(r['stem']) and sn_valid(r.get('sn', '')):
             o = oracle(r['order'], r['strop'], r['es'], r['ext'], r['stem'], r['outdir_parts'])
             tfiles = set(o['paths'].values())
             if not any(n['path'] in tfiles for n in o['nodes'].values()):
-                v['oracle'] = ['build_namespace_tree raised although the stem is a plain file name and no namespace file is a type file: %s' % r['raised'][:200]]
+                v['oracle'] = ['raised although the stem is a plain file name, the support namespace is valid and no namespace file is a type file: %s' % r['raised'][:200]]
         if r.get('after_build_new_files'):
             v['oracle'].append('files written before the error: %r' % r['after_build_new_files'])
         if models is not None and not all(m['raised'] for m in models):
@@ -779,6 +804,22 @@ def judge(case: dict, r: dict, kf_live: bool, models: typing.Optional[typing.Lis
             bad = [d for d in diffs if d]
             if bad:
                 v['model'] = bad[0]
+    if od and KF_SN_LIVE and not sn_valid(r.get('sn', '')) and r.get('with_support') and not v['model']:
+        # known finding F-SUPPORT-NS-PATH: trigger = the support namespace is not a list of identifiers; the model (pathlib join, no
+        # validation) must give the folder every support file was written to
+        sn_msgs = [m for m in od if m.startswith(SN_MSG)]
+        ok = bool(sn_msgs)
+        if models is not None and ok:
+            m = models[-1]
+            type_ns = {rel_to_sandbox(x[-1], r['sandbox']) for x in (m['all_seq'] if r.get('generate_namespace_types') else [('T',) + y for y in m['dt_seq']])}
+            sup_files = set(r.get('new_files', [])) - type_ns
+            want = rel_to_sandbox(m['sup'][:-1], r['sandbox']) if m.get('sup') else None
+            ok = want is not None and bool(sup_files) and all(os.path.dirname(f) == want for f in sup_files)
+            if not ok:
+                od = ['support files %r are not in the folder %r of the quirk-faithful model' % (sorted(sup_files)[:4], want)]
+        if ok:
+            v['kf_sn'] = True
+            od = [m_ for m_ in od if not m_.startswith(SN_MSG) and not m_.startswith('files created outside') and not m_.startswith('files on disk')]
     if od and KF_PATH_LIVE and not stem_valid(r['stem']) and models is None:
         v['kf_path'] = True      # shrinking / replay without the model: the trigger alone
         od = []
@@ -861,7 +902,7 @@ def main(chk: core.Check, replay: typing.Optional[str] = None) -> int:
         cases = gen_cases(chk.rng, n_cases, n_cli)
 
     # 1. proof obligations
-    res = core.coq_check('C11', ['uni', 'strop', 'pin_c11tree', 'pin_c11path', 'pin_c11gen', 'c11_scan'])
+    res = core.coq_check('C11', ['uni', 'strop', 'pin_c11tree', 'pin_c11path', 'pin_c11gen', 'pin_c11support', 'c11_scan'])
     chk.proof_coverage(res, [
         'hand model Gen/Namespace.v of build_namespace_tree, Namespace enumeration/lookup and make_path; valid for the pinned '
         'shape of the modelled functions (tools/translators/gen_c11.py: shape pins c11tree, c11path + AST scan c11_scan, '
@@ -912,6 +953,16 @@ def main(chk: core.Check, replay: typing.Optional[str] = None) -> int:
         KF_PATH_LIVE = 'err' not in r and r.get('raised') is None and any(not f.startswith('out/') for f in r.get('new_files', []))
         if KF_PATH_LIVE:
             chk.report_known(STEMPATH_ID)
+    global KF_SN_LIVE
+    KF_SN_LIVE = False
+    if chk.is_known(SN_ID):
+        w = chk.known_entry(SN_ID)['witness']
+        wc = dict(id='kfsn', types=w['types'], lang=w['lang'], outdir='rel', generate='cli-support', shuffle=0, ext=None, stem=None, es=None,
+                  user=None, sn=w['sn'])
+        r = run_impl([wc], workers=1)[0]
+        KF_SN_LIVE = 'err' not in r and r.get('raised') is None and any(not f.startswith('out/') for f in r.get('new_files', []))
+        if KF_SN_LIVE:
+            chk.report_known(SN_ID)
     models = run_model(exe, impl, prefix_quirk=kf_live) if ok_model else [None] * len(cases)
 
     stats = collections.Counter()
@@ -930,6 +981,9 @@ def main(chk: core.Check, replay: typing.Optional[str] = None) -> int:
         stats['stem_collision_instances'] += bool(v.get('kf_stem'))
         stats['stem_not_plain_file_name_cases'] += ('err' not in r) and not stem_valid(r.get('stem', 'x'))
         stats['stem_path_instances'] += bool(v.get('kf_path'))
+        stats['support_namespace_overridden'] += ('err' not in r) and bool(r.get('sn_overridden'))
+        stats['support_namespace_not_identifiers'] += ('err' not in r) and not sn_valid(r.get('sn', ''))
+        stats['support_ns_path_instances'] += bool(v.get('kf_sn'))
         if 'err' not in r and r.get('raised') is not None:
             stats['refused_by_stem_check'] += 1
             if models[i] is not None:
